@@ -1,6 +1,7 @@
 //! C11 — width errors; the overflow option always succeeds and is otherwise a no-op.
 use super::common::*;
 use crate::cfg::{render, CfgSpec, Deco, Rend};
+use super::fuzzsub::FuzzSub;
 use crate::engine::{PropSub, Property, Stats};
 use crate::gen::{census, Block, G};
 use crate::util::{line_width, short};
@@ -189,6 +190,7 @@ pub fn property() -> Property {
             PropSub::new("relations", 24_000, 240_000, move || doc_case(g.clone(), 0..=60, cfg_any(), false), check_relations).with_validity(|c| c.doc.valid()).boxed(),
             PropSub::new("relations_mutated", 12_000, 120_000, move || doc_case(g2.clone(), 0..=60, cfg_any(), true), check_relations).with_validity(|c| c.doc.valid()).boxed(),
             PropSub::new("bound", 24_000, 240_000, move || doc_case(g3.clone(), 1..=40, cfg_std_any(), false), check_bound).with_validity(|c| c.doc.valid()).boxed(),
+            FuzzSub { name: "fuzz_render", target: "fuzz_render", props: &["C11"], seconds: 120 }.boxed(),
         ],
     }
 }
